@@ -2320,3 +2320,30 @@ Proof. eexists. split; [vm_compute; reflexivity|]. split; reflexivity. Qed.
 Example widen_example :
   wi_widen (wi_mk (mkW 3 8) (mkW 5 8)) (wi_mk (mkW 5 8) (mkW 3 8)) = Some wi_top.
 Proof. vm_compute. reflexivity. Qed.
+
+
+(* mk_winterval(lb, ub, width): every number of the range, modulo 2^w, is a member *)
+Theorem mk_winterval2_sound lb ub w r : mk_winterval2 lb ub w = Some r ->
+  forall z x, lb <= z <= ub -> of_z z w = Some x -> gamma w r x.
+Proof.
+  unfold mk_winterval2. intros R z x Hz X.
+  pose proof (of_z_spec z w) as S. rewrite X in S. destruct S as (Hw & Fz & Wx & Ex & Vx).
+  assert (wfw w x) as Hx by (split; assumption).
+  destruct (fits_wrapint lb w) eqn:F1; cbn [negb] in R;
+    [|inversion R; subst r; apply gamma_top; [reflexivity|exact Hx]].
+  destruct (fits_wrapint ub w) eqn:F2; cbn [negb] in R;
+    [|inversion R; subst r; apply gamma_top; [reflexivity|exact Hx]].
+  apply fits_wrapint_spec in F1, F2.
+  assert (valid_width w = true) as V by (apply valid_width_spec; exact Hw). rewrite V in R. cbn [negb] in R.
+  destruct (umax_val w Hw) as [_ UM]. unfold get_unsigned_bignum in R. rewrite UM in R.
+  destruct (Z.leb_spec (2 ^ w - 1) (ub - lb)) as [Wd|Nw];
+    [inversion R; subst r; apply gamma_top; [reflexivity|exact Hx]|].
+  pose proof (of_z_spec lb w) as Sl. pose proof (of_z_spec ub w) as Su.
+  destruct (of_z lb w) as [l|]; [|exfalso; apply Sl; lia].
+  destruct (of_z ub w) as [u|]; [|exfalso; apply Su; lia].
+  cbn [obind] in R. inversion R; subst r.
+  destruct Sl as (_ & _ & Wl & El & Vl). destruct Su as (_ & _ & Wu & Eu & Vu).
+  apply gamma_mk; [split; assumption|split; assumption|exact Hx|].
+  unfold to_Z, wrap in *. rewrite Vx, Vl, Vu.
+  apply interval_mod_Z; [apply pow2_pos; lia|exact Hz|lia].
+Qed.
